@@ -19,6 +19,7 @@ Oracle: the model value itself (mc.refs.syntax.expected).
 from __future__ import annotations
 
 import io
+import itertools
 import re
 import traceback
 from fractions import Fraction
@@ -26,8 +27,8 @@ from typing import Any, Dict, List, Optional, Tuple
 
 from mc.core import h64
 from mc.explore import Abort, ChoiceExplorer, Chooser, ordered_trees
-from mc.pdfgen import HexStr, Name, Ref, xref_table
-from mc.refs.syntax import _ENDS_DELIM, _STARTS_DELIM, Real, Speller, expected, spell
+from mc.pdfgen import HexStr, Name, Ref, ser, xref_stream_obj, xref_table
+from mc.refs.syntax import _ENDS_DELIM, _STARTS_DELIM, Real, Seq, Speller, expected, spell
 
 from pdfminer.pdfdocument import PDFDocument
 from pdfminer.pdfparser import PDFParser, PDFStreamParser
@@ -79,10 +80,10 @@ LEAVES: List[Any] = [
 KEYS = ["K", "Type", "A B", "é", "a#b", "x"]
 
 BOUNDS = {
-    "quick": {"atom_dev": 2, "long_dev": 1, "pair_dev": 1, "tree_dev": 1, "tree_nodes": 5, "tree_rot": 1, "pair_all_dicts": False,
-              "doc_bufsiz": [4096, 1, 2, 3, 7], "split": {"atom": 1, "long": 1, "pair": 1, "tree": 1}},
-    "thorough": {"atom_dev": 3, "long_dev": 2, "pair_dev": 1, "pair2_dev": 2, "tree_dev": 1, "tree_nodes": 6, "tree_rot": 3, "pair_all_dicts": True,
-                 "doc_bufsiz": [4096, 1, 2, 3, 5, 7, 8, 13], "split": {"atom": 8, "long": 24, "pair": 1, "pair2": 4, "tree": 1}},
+    "quick": {"atom_dev": 2, "long_dev": 1, "pair_dev": 1, "tree_dev": 1, "tree_nodes": 5, "tree_rot": 1, "pair_all_dicts": False, "seq_len": 2,
+              "doc_bufsiz": [4096, 1, 2, 3, 7], "split": {"atom": 1, "long": 1, "pair": 1, "tree": 1, "seq": 1, "seq0": 1}},
+    "thorough": {"atom_dev": 3, "long_dev": 2, "pair_dev": 1, "pair2_dev": 2, "tree_dev": 1, "tree_nodes": 6, "tree_rot": 3, "pair_all_dicts": True, "seq_len": 3,
+                 "doc_bufsiz": [4096, 1, 2, 3, 5, 7, 8, 13], "split": {"atom": 8, "long": 24, "pair": 1, "pair2": 4, "tree": 1, "seq": 1, "seq0": 1}},
 }
 
 
@@ -162,13 +163,29 @@ def pair2_values() -> List[Any]:
     return out
 
 
-FAMILIES = {"quick": ("atom", "long", "pair", "tree"), "thorough": ("atom", "long", "pair", "pair2", "tree")}
+# sequences of top-level objects (history shape of PDFStreamParser: what flush() emits, holds back and releases at end of data)
+SEQ_POOL: List[Any] = [7, 5, Name(b"A"), b"s", Ref(1, 0), [2, 3], None]
+
+
+def seq_values(minlen: int, maxlen: int) -> List[Any]:
+    out: List[Any] = []
+    for n in range(minlen, maxlen + 1):
+        for t in itertools.product(SEQ_POOL, repeat=n):
+            out.append(Seq(t))
+    return out
+
+
+FAMILIES = {"quick": ("atom", "long", "pair", "tree", "seq", "seq0"), "thorough": ("atom", "long", "pair", "pair2", "tree", "seq", "seq0")}
 
 
 def family(fam: str, tier: str) -> Tuple[List[Any], int]:
     b = BOUNDS[tier]
     if fam == "pair2":
         return pair2_values(), b["pair2_dev"]
+    if fam == "seq":  # every sequence up to seq_len objects, one deviation (separators incl. EOF/comment at the end, spellings)
+        return seq_values(1, b["seq_len"]), 1
+    if fam == "seq0":  # one object longer, canonical spelling only
+        return seq_values(b["seq_len"] + 1, b["seq_len"] + 1), 0
     if fam == "atom":
         return ATOMS + (ATOMS_THOROUGH if tier == "thorough" else []), b["atom_dev"]
     if fam == "long":
@@ -184,7 +201,10 @@ META = {
     "rule": (
         "case = (value, spelling): for every value of four families (atom: %d values incl. 20-digit integers, 20-decimal reals, "
         "-0/+0/-0.0/-.0 spellings of zero, 1-, 2- and 3-digit octal escapes at the end of a string and before non-digits; thorough "
-        "adds %d more atoms; tree also holds bare top-level references and references at depth 3; long: the 256 byte values as eight "
+        "adds %d more atoms; tree also holds bare top-level references and references at depth 3; seq: every sequence of up to seq_len top-level objects over a "
+        "7-object pool (two integers, name, string, reference, array, null) with one deviation, seq0: every sequence one object longer in "
+        "canonical spelling -- read through PDFStreamParser and, packed into an object stream with a cross-reference stream, through "
+        "PDFDocument.getobj of every contained object (PDFStreamParser.BUFSIZ set to doc_bufsiz as well); long: the 256 byte values as eight "
         "32-byte strings; pair: all ordered pairs of %d token-kind representatives as [a b], and as <</K a/L b>> (quick: every "
         "representative in each slot with two partners; thorough: all ordered pairs; thorough also pair2 = the same over 10 representatives "
         "with one more deviation); tree: all ordered "
@@ -306,7 +326,52 @@ def build_doc(bodies: List[bytes], pad: int = 0) -> Tuple[bytes, List[int]]:
     return bytes(out), nums
 
 
-def run_doc(doc: bytes, nums: List[int], bufsiz: int):
+def build_objstm_doc(spellers: List[Speller], pad: int = 0) -> Tuple[bytes, List[Tuple[int, ...]]]:
+    """One object stream per spelled sequence (its items are the compressed objects), cross-reference stream."""
+    out = bytearray(b"%PDF-1.5\n%\xe2\xe3\xcf\xd3\n" + b"%" + b"p" * pad + b"\n")
+    entries: Dict[int, Tuple[int, int, int]] = {0: (0, 0, 65535)}
+    entries[1] = (1, len(out), 0)
+    out += b"1 0 obj\n<</Type/Catalog/Pages 2 0 R>>\nendobj\n"
+    entries[2] = (1, len(out), 0)
+    out += b"2 0 obj\n<</Type/Pages/Kids[]/Count 0>>\nendobj\n"
+    groups: List[Tuple[int, ...]] = []
+    nxt = 3
+    for s in spellers:
+        stm = nxt
+        nums = tuple(range(stm + 1, stm + 1 + len(s.item_starts)))
+        nxt = stm + 1 + len(nums)
+        head = b" ".join(b"%d %d" % (n, off) for n, off in zip(nums, s.item_starts)) + b"\n"
+        data = head + s.data
+        entries[stm] = (1, len(out), 0)
+        out += b"%d 0 obj\n<</Type/ObjStm/N %d/First %d/Length %d>>\nstream\n" % (stm, len(nums), len(head), len(data)) + data + b"\nendstream\nendobj\n"
+        for i, n in enumerate(nums):
+            entries[n] = (2, stm, i)
+        groups.append(nums)
+    xnum = nxt
+    entries[xnum] = (1, len(out), 0)
+    xs = xref_stream_obj(entries, {"Type": Name("XRef"), "Size": xnum + 1, "Root": Ref(1)}, W=(1, 4, 2))
+    start = len(out)
+    out += b"%d 0 obj\n" % xnum + ser(xs) + b"\nendobj\nstartxref\n%d\n%%%%EOF\n" % start
+    return bytes(out), groups
+
+
+def build_any_doc(spellers: List[Speller], pad: int = 0):
+    if spellers and spellers[0].item_starts:
+        return build_objstm_doc(spellers, pad)
+    return build_doc([doc_body(s) for s in spellers], pad)
+
+
+def run_doc(doc: bytes, nums: List[Any], bufsiz: int):
+    """nums: object numbers; a tuple of numbers means 'the objects of one sequence' (read from an object stream)."""
+    old = PDFStreamParser.BUFSIZ
+    PDFStreamParser.BUFSIZ = bufsiz  # object streams are parsed by PDFStreamParser instances made inside pdfminer
+    try:
+        return _run_doc(doc, nums, bufsiz)
+    finally:
+        PDFStreamParser.BUFSIZ = old
+
+
+def _run_doc(doc: bytes, nums: List[Any], bufsiz: int):
     p = _CountingParser(io.BytesIO(doc))
     p.BUFSIZ = bufsiz
     p.nfill = 0
@@ -318,7 +383,10 @@ def run_doc(doc: bytes, nums: List[int], bufsiz: int):
     res = []
     for n in nums:
         try:
-            res.append(("ok", canon_obs(d.getobj(n))))
+            if isinstance(n, (tuple, list)):
+                res.append(("ok", ("seq", tuple(canon_obs(d.getobj(k)) for k in n))))
+            else:
+                res.append(("ok", canon_obs(d.getobj(n))))
         except Exception as e:  # noqa
             res.append(("exc", _exc_name(e)))
     return res
@@ -377,7 +445,7 @@ def eval_stream(s: Speller, counters=None):
 
 def eval_docs(spellers: List[Speller], bufsizes: List[int], pad: int, counters=None):
     """-> (doc, nums, per speller (ref, dependents)); ref = observation at the first BUFSIZ of ``bufsizes`` (4096)."""
-    doc, nums = build_doc([doc_body(s) for s in spellers], pad)
+    doc, nums = build_any_doc(spellers, pad)
     refs: List[Any] = []
     deps: List[List[Any]] = [[] for _ in spellers]
     for k, b in enumerate(bufsizes):
@@ -431,6 +499,13 @@ def diff_name(exp, obs) -> str:
     """Name the first difference between the expected canonical value and an observation ('ok', (values...))."""
     if obs[0] != "ok":
         return "exception:" + str(obs[1])
+    if exp[0] == "seq":
+        got = obs[1][1] if (obs[1] and obs[1][0] == "seq") else obs[1]
+        if len(got) != len(exp[1]):
+            return f"sequence-length:{len(exp[1])}->{len(got)}"
+        if sorted(map(repr, got)) == sorted(map(repr, exp[1])):
+            return "sequence-order"
+        return "sequence-item:" + next(diff_name(e, ("ok", (o,))) for e, o in zip(exp[1], got) if e != o)
     vals = obs[1] if isinstance(obs[1], tuple) and (not obs[1] or isinstance(obs[1][0], tuple)) else (obs[1],)
     if len(vals) != 1:
         return f"objects:1->{len(vals)}"
@@ -479,6 +554,7 @@ class Judge:
     def __init__(self, value, bufsizes: List[int]):
         self.value = value
         self.exp = expected(value)
+        self.want_stream = ("ok", self.exp[1]) if isinstance(value, Seq) else ("ok", (self.exp,))
         self.bufsizes = bufsizes
         self.s0 = spell(Chooser([]), value)
         ref0, dep0 = eval_stream(self.s0)
@@ -507,7 +583,7 @@ class Judge:
 
     def misread_signatures(self, s: Speller, seam: str, obs) -> List[str]:
         """obs = what this spelling read back as at the default buffer size (already known to differ from expected)."""
-        want = ("ok", (self.exp,)) if seam == "stream" else ("ok", self.exp)
+        want = self.want_stream if seam == "stream" else ("ok", self.exp)
         base = self.base_stream if seam == "stream" else self.base_doc
         sigs = set()
         if base != want:
@@ -569,12 +645,12 @@ def _judge_stream(st, J: Judge, s: Speller, ref, dep) -> None:
     exp = J.exp
     feats = [x for _, x in s.feats]
     base = {"seam": "stream", "value": repr(J.value), "features": feats, "expected": exp, "spelling": s.data}
-    want = ("ok", (exp,))
+    want = J.want_stream
     if stream_value(ref) != want:
         for sig in J.misread_signatures(s, "stream", stream_value(ref)):
-            st.violation(sig, {**base, "kind": "misread", "input": s.data, "bufsiz": 4096, "prefix_len": 0, "signature": sig},
+            st.violation(sig, {**base, "kind": "misread", "input": s.data, "bufsiz": 4096, "prefix_len": 0, "want": want, "signature": sig},
                          want, stream_value(ref), f"{s.data!r} read back as {stream_value(ref)!r}, expected {exp!r}")
-    elif not isinstance(J.value, Ref) and ref[2] != (s.body_start,):
+    elif not isinstance(J.value, (Ref, Seq)) and ref[2] != (s.body_start,):
         # (a bare reference is reported at its R keyword, as inside arrays; the statement does not fix that position)
         sig = "C01/position:" + ("canonical" if not feats else "+".join(sorted({cause_name(f) for f in feats})))
         st.violation(sig, {**base, "kind": "position", "input": s.data, "bufsiz": 4096, "prefix_len": 0, "expected_pos": s.body_start,
@@ -594,8 +670,8 @@ def _judge_doc(st, J: Judge, s: Speller, doc: bytes, num: int, ref, dep) -> None
     if ref == want and not dep:
         return
     # self-contained minimal file for the artefact if it shows the same thing
-    one, nums1 = build_doc([doc_body(s)], 0)
-    base = {"seam": "getobj", "value": repr(J.value), "features": feats, "expected": exp, "object_text": doc_body(s)}
+    one, nums1 = build_any_doc([s], 0)
+    base = {"seam": "getobj", "value": repr(J.value), "features": feats, "expected": exp, "object_text": s.data if s.item_starts else doc_body(s)}
     if ref != want:
         r1 = run_doc(one, nums1, 4096)[0]
         d, n, o = (one, nums1[0], r1) if r1 != want else (doc, num, ref)
@@ -670,7 +746,7 @@ def replay(case):
     if case["seam"] == "stream":
         r = _norm(run_stream(case["input"], case["bufsiz"]), case["prefix_len"])
         if kind == "misread":
-            want = ("ok", (exp,))
+            want = case.get("want") or ("ok", (exp,))
             if stream_value(r) != want:
                 return [{"signature": sig, "expected": repr(want), "observed": repr(stream_value(r))}]
         elif kind == "position":
